@@ -43,6 +43,9 @@ DIRECTED = [
     "functie m(x, y) { als x < y { x } anders { y } } [m(0.0 / 0.0, 1.0), m(1.0, 0.0 / 0.0), m(0.0 / 0.0, 0.0 / 0.0)]",
     "functie kwadraat(n) { n * n }; [kwadraat(2), 1.5, \"klaar\"]; stel laatste = kwadraat(4)", "functie f() { 2 }; 1.5 + 0.0; stel u = f(); stel v = f()", "functie leeg() { }; \"de waarde\"; stel a = leeg(); stel b = leeg()",
     "functie g(n) { [n] }; [0.5 + 0.25, [\"x\"]]; stel p = g(1); stel q = g(2)",
+    "functie f(n) { als n < 1 { antwoord 0 } 1 + f(n - 1) } [0, f(32767)]", "functie f(n) { als n < 1 { antwoord 0 } 1 + f(n - 1) } [0, 1, f(32766)]", "functie f(n) { als n < 1 { antwoord 0 } f(n - 1) } f(65533)",
+    "functie f(n, a) { als n < 1 { antwoord a } f(n - 1, a + 1) } f(21844, 0)", "functie f(n, a) { als n < 1 { antwoord a } 1 + f(n - 1, a) } [f(16383, 0), f(16384, 0)]",
+    "stel a = float(\"1e-310\"); [a + a, a * 2.0, a == 0.0]", "stel x = 1.5; x + ja", "stel d = 0.0000000000000000000000000000000000000000000000000001; stel e = d * d * d * d * d * d; [e, e + e, e > 0.0]", "2.5 + \"a\"", "stel f = float(\"5e-324\"); [f, f / 2.0, f * 3.0]",
     "functie f(a, b, c, d, e) { [a, b, c, d, e] } f()", "functie f(a, b, c) { stel x = x; stel y = y; [a, b, c, x, y] } f(1)",
     "functie g(n) { als n > 0 { antwoord g(n - 1) } stel diep = diep; [n, diep] } g(30)", "[11, 22, 33, 44, 55, 66, 77, 88, 99, 110, 121, 132]",
     "functie vul(a, b, c, d, e, f) { [a, b, c, d, e, f] } vul(\"a\", [1], 2.5, 4, ja, 6)", "functie h() { stel p = p; stel q = [q]; als ja { stel r = r; [p, q, r] } } h()",
